@@ -33,7 +33,7 @@ UnwrappedDesignOK == \A c \in CaseSet : ~c.wrap => Holds(c, Expected(c))
 
 SetSeq(S) == SetToSeq(S)
 CaseJson(c) == [req |-> c.req, tr |-> c.tr, json |-> c.json, store |-> c.store, wrap |-> c.wrap,
-                adv |-> SetSeq(c.adv), disc |-> c.disc, prior |-> c.prior]
+                adv |-> SetSeq(c.adv), disc |-> c.disc, prior |-> c.prior, early |-> c.early]
 LeadJson(c) == [c |-> CaseJson(c), exp |-> Expected(c), failed |-> SetSeq(FailedClauses(c, Expected(c))),
                 trclass |-> TrClass(c), via |-> Via(Expected(c))]
 Export == /\ ndJsonSerialize("cases.ndjson", SetSeq({CaseJson(c) : c \in CaseSet}))
